@@ -93,12 +93,12 @@ def c02(ctx):
            [{'module': 'MC_C02', 'cfg': 'MC_C02_thorough.cfg', 'workers': 12, 'timeout': 3000, 'heap': '16g'}]
 
     def calls(r):
-        return ['run_eq::<%s, _>(&mut out, &dom, &all_pairs);' % r.name]
+        return ['run_eq::<%s, _>(&mut out, &dom, &all_pairs);' % r.name, 'run_eq_same::<%s, _>(&mut out, &dom);' % r.name]
 
     r_property(ctx, runs, ['DoSeal', 'DoBegin', 'Step', 'Return'], TypeRender, calls, [0, 1] if quick else [0, 1, 2],
                COMMON_ASSUMPTIONS,
                'every struct/enum shape within the bounds of the MC_C02 cfg x {own, ignore, method} per field x attribute carried by '
-               'PartialEq(..) or Eq(..); all ordered pairs of values over the value domain, == and != each; '
+               'PartialEq(..) or Eq(..); all ordered pairs of values over the value domain, == and != each; every value (incl. the non-reflexive NaN) compared with *itself*, same object; '
                'non-trivial = more than one variant or a non-default field attribute')
 
 
@@ -118,6 +118,7 @@ def c03(ctx):
                 out.append('run_pcmp::<%s, _>(&mut out, &dom, &all_pairs);' % r.name)
         else:
             out.append('run_pcmp::<%s, _>(&mut out, &with_nan(&dom), &all_pairs);' % r.name)
+            out.append('run_pcmp_same::<%s, _>(&mut out, &dom);' % r.name)
         return out
 
     r_property(ctx, runs, ['DoSeal', 'DoBegin', 'Step', 'Return'], TypeRender, calls, [0, 1] if quick else [0, 1, 2],
@@ -370,15 +371,23 @@ class UnionRender(TypeRender):
         al = max(self.UT[f['ty']][2] for f in fs)
         return (sz + al - 1) // al * al
 
+    def padded(self):
+        """repr "C": no full-size `raw` member, so the bytes beyond the largest member are padding"""
+        return self.opts.get('repr', 'none') == 'C'
+
+    def covered(self):
+        fs = self.cfg['variants'][0]['fields']
+        return self.usize() if not self.padded() else max(self.UT[f['ty']][1] for f in fs)
+
     def item(self, derive=True):
         fs = self.cfg['variants'][0]['fields']
         body = ', '.join('f%d: %s' % (i, self.UT[f['ty']][0]) for i, f in enumerate(fs, 1))
+        if self.padded():
+            return '%s%s #[repr(C)] union %s { %s }' % ('#[derive(Educe)] ' if derive else '', self.type_attr(), self.name, body)
         return '%s%s union %s { %s, raw: [u8; %d] }' % ('#[derive(Educe)] ' if derive else '', self.type_attr(), self.name, body, self.usize())
 
     def case_impl(self):
-        n = self.usize()
-        return ('impl UCase for %s { const ID: usize = %d; fn from_bytes(b: &[u8]) -> Self { let mut raw = [0u8; %d]; raw.copy_from_slice(b); %s { raw } } }'
-                % (self.name, self.idx, n, self.name))
+        return 'impl UCase for %s { const ID: usize = %d; }' % (self.name, self.idx)
 
 
 def c20(ctx):
@@ -387,10 +396,11 @@ def c20(ctx):
            [{'module': 'MC_C20', 'cfg': 'MC_C20_thorough.cfg', 'workers': 12, 'timeout': 3000, 'heap': '16g'}]
 
     def calls(r):
-        return ['run_union::<%s, _>(&mut out, "%s");' % (r.name, r.name)]
+        return ['run_union::<%s, _>(&mut out, "%s", %d);' % (r.name, r.name, r.covered())]
 
     r_property(ctx, runs, ['DoSeal', 'DoBegin', 'Step', 'Return'], UnionRender, calls, [0, 1],
-               COMMON_ASSUMPTIONS + ['every union carries an extra `raw: [u8; size]` member through which all its bytes are initialised (it changes neither size nor alignment)'],
+               COMMON_ASSUMPTIONS + ['union values are written as bytes into aligned storage and only seen through a reference; half of the unions carry a full-size `raw: [u8; size]` member, '
+                                     'the others are `#[repr(C)]` with typed members only, so that the bytes beyond the largest member are padding'],
                'unions with 1..MaxFields fields of sizes/alignments {u8, u16, [u8;3], u32, [u16;4]} x Debug name {default, off, custom}, educing Debug/PartialEq/Eq/Hash/Clone/Copy '
                'behind `unsafe`; values = all byte patterns over {0,7,255} for sizes <= 2, five boundary patterns above; per value: Debug text in both modes, the recorded '
                'hasher feed against the feed of the byte slice itself, the bytes of the clone, == against every pattern; non-trivial = more than one field or a name setting')
@@ -672,6 +682,8 @@ def c16(ctx):
         r = MultiRender(ci, rec['cfg'], 'C16', canonical=False, name='T')
         texts.append(('multi%d' % ci, r.item(derive=False)))
     texts += fam_items
+    # items that hold both the first-choice name of a generated generic and its fallback
+    texts += fallback_pair_items(exe)
     meta = {}
     for tid, text in texts:
         meta[tid] = {'mode': 'same', 'g': tid}
@@ -1301,7 +1313,7 @@ def stress_inputs():
 
 # ---------------------------------------------------------------- C11
 class GenericRender(TypeRender):
-    GT = {'T': 'T', 'U': 'U', 'RefT': "&'b T", 'WrapT': 'Wrap<T>', 'PhantomT': '::core::marker::PhantomData<T>', 'PairTU': '(T, U)', 'conc': 'u8',
+    GT = {'T': 'T', 'U': 'U', 'RefT': "&'b T", 'ArrT': '[T; 2]', 'Arr0T': '[T; 0]', 'WrapT': 'Wrap<T>', 'PhantomT': '::core::marker::PhantomData<T>', 'PairTU': '(T, U)', 'conc': 'u8',
           'PhantomAll': '::core::marker::PhantomData<(T, U)>', 'A': 'TA', 'B': 'TB'}
 
     def __init__(self, idx, cfg, prop, **kw):
@@ -1999,6 +2011,52 @@ def learn_templates(exe):
     return templates, scopes
 
 
+def learn_fallbacks(exe, pool):
+    """fallback names: what the generated code calls its own generics when the user already holds the first choice
+    (pairs [taken, fallback], recorded from real expansions)"""
+    import re as _re
+    identre = _re.compile(r"[A-Za-z_][A-Za-z_0-9]*")
+    up = [x for x in pool if _re.match(r'^[A-Za-z][A-Za-z0-9_]*$', x) and x not in SHADOW_NAMES][:200]
+    areqs = [{'id': x, 'text': '#[educe(Debug, Clone, PartialEq, Eq, PartialOrd, Ord, Hash, Default)] struct Tx<%s> { xa: u8, xg: %s }' % (x, x)} for x in up]
+    atext = {q['id']: q['text'] for q in areqs}
+    avoid = []
+    for r in xchan.expand(exe, areqs):
+        if r['outcome'] != 'ok':
+            continue
+        new = set(identre.findall(r['out'])) - set(identre.findall(atext[r['id']])) - set(pool)
+        for a in sorted(new):
+            if a not in RUST_KEYWORDS and a != '_' and not a.startswith('probes'):
+                avoid.append([r['id'], a])
+    return avoid
+
+
+def fallback_pair_items(exe):
+    """items that hold both a generated generic's first-choice name and its fallback (for C16: the choice must not
+    depend on anything but the input)"""
+    import re as _re
+    identre = _re.compile(r"[A-Za-z_][A-Za-z_0-9]*")
+    base = ['#[educe(Debug, Clone, PartialEq, Eq, PartialOrd, Ord, Hash, Default)] struct Tx { xa: u8, xb: u16 }',
+            '#[educe(Debug, Clone, PartialEq, Eq, PartialOrd, Ord, Hash, Default)] enum Tx { #[educe(Default)] Va { xa: u8 }, Vb(u16) }',
+            '#[educe(Copy, Clone, Deref, DerefMut, Into(u16))] struct Tx { #[educe(Deref, DerefMut)] xa: u8, xb: u16 }']
+    pool = set()
+    for r, t in zip(xchan.expand1(exe, [{'id': i, 'text': t} for i, t in enumerate(base)]), base):
+        if r['outcome'] == 'ok':
+            pool |= set(identre.findall(r['out'])) - set(identre.findall(t))
+    pool = sorted(x for x in pool if x not in RUST_KEYWORDS and x != '_')
+    out = []
+    n = 0
+    for a, b in learn_fallbacks(exe, pool):
+        for order in ('taken_first', 'fallback_first'):
+            for sorts in ('tt', 'tc', 'ct'):
+                for kind in ('struct', 'enum'):
+                    h = {'pos': 'parampair', 'id': a, 'id2': b, 'order': order, 'sorts': sorts, 'kind': kind, 'traits': 'cmp8'}
+                    n += 1
+                    it = hostile_item(h, n)
+                    if it:
+                        out.append(('pair%d' % n, it[1].replace('#[derive(Educe)] ', '')))
+    return out
+
+
 class HostileNamesRender(TypeRender):
     """run-time corpora of C19: every type takes its field names from a hostile pool (template-internal names, names the
     templates derive from a sibling field's name, raw identifiers)"""
@@ -2154,18 +2212,7 @@ def c19(ctx):
     lower = [x for x in pool if x[0].islower() or x[0] == '_']
     facts_path = os.path.join(ctx.workdir, 'facts.json')
     templates, scopes = learn_templates(exe)
-    # fallback names: what the generated code calls its own generics when the user already holds the first choice
-    up = [x for x in pool if _re.match(r'^[A-Za-z][A-Za-z0-9_]*$', x) and x not in SHADOW_NAMES][:200]
-    areqs = [{'id': x, 'text': '#[educe(Debug, Clone, PartialEq, Eq, PartialOrd, Ord, Hash, Default)] struct Tx<%s> { xa: u8, xg: %s }' % (x, x)} for x in up]
-    avoid = []
-    atext = {q['id']: q['text'] for q in areqs}
-    for r in xchan.expand(exe, areqs):
-        if r['outcome'] != 'ok':
-            continue
-        new = set(identre.findall(r['out'])) - set(identre.findall(atext[r['id']])) - set(pool)
-        for a in sorted(new):
-            if a not in RUST_KEYWORDS and a != '_' and not a.startswith('probes'):
-                avoid.append([r['id'], a])
+    avoid = learn_fallbacks(exe, pool)
     json.dump({'pool': pool, 'lower': lower, 'templates': templates, 'scopes': scopes, 'avoid': avoid}, open(facts_path, 'w'))
     ctx.info('fallback names recorded: %s' % ', '.join('%s->%s' % (a, b) for a, b in avoid))
     ctx.info('name templates recorded: %s' % ', '.join(t['pre'] + '<field>' + t['suf'] for t in templates))
